@@ -24,10 +24,10 @@ type lifeSpec struct {
 	OnReplay   func(s *Sim, os []Oracle)
 }
 
-var lifeActions = []string{"storeNew", "storeUpdate", "complete", "cancel", "terminate", "renew", "migrate", "claim", "advance", "storeHostile", "seed", "vstorage", "bankDrain", "resetNode", "debtCombo", "keepAlive"}
+var lifeActions = []string{"storeNew", "storeUpdate", "complete", "cancel", "terminate", "renew", "migrate", "claim", "advance", "storeHostile", "seed", "vstorage", "bankDrain", "resetNode", "debtCombo", "keepAlive", "permission", "storeStale"}
 
 // actions that are off unless a spec gives them a weight
-var lifeOptIn = map[string]bool{"storeHostile": true, "seed": true, "vstorage": true, "bankDrain": true, "resetNode": true, "debtCombo": true}
+var lifeOptIn = map[string]bool{"storeHostile": true, "seed": true, "vstorage": true, "bankDrain": true, "resetNode": true, "debtCombo": true, "keepAlive": true, "permission": true, "storeStale": true}
 
 func (sp *lifeSpec) newSim(t TB) (*Sim, *LifeCfg, []Oracle) {
 	os := sp.Oracles()
@@ -56,7 +56,7 @@ func (sp *lifeSpec) property() func(*rapid.T) {
 				"storeNew": cfg.GenStoreNew, "storeUpdate": cfg.GenStoreUpdate, "complete": cfg.GenComplete,
 				"cancel": cfg.GenCancel, "terminate": cfg.GenTerminate, "renew": cfg.GenRenew,
 				"migrate": cfg.GenMigrate, "claim": cfg.GenClaim, "advance": cfg.GenAdvance,
-				"storeHostile": cfg.GenStoreHostile, "seed": cfg.GenSeed, "vstorage": cfg.GenVstorage, "bankDrain": cfg.GenBankDrain, "resetNode": cfg.GenResetNode, "debtCombo": cfg.GenDebtCombo, "keepAlive": cfg.GenKeepAlive,
+				"storeHostile": cfg.GenStoreHostile, "seed": cfg.GenSeed, "vstorage": cfg.GenVstorage, "bankDrain": cfg.GenBankDrain, "resetNode": cfg.GenResetNode, "debtCombo": cfg.GenDebtCombo, "keepAlive": cfg.GenKeepAlive, "permission": cfg.GenPermission, "storeStale": cfg.GenStoreStale,
 			}
 			var menu []string
 			for _, k := range lifeActions {
@@ -342,3 +342,25 @@ func init() {
 var c08ReplayBase *sdk.Int
 
 func TestC08(t *testing.T) { runRapid(t, "TestC08", specC08.property()) }
+
+// ---- C16 ----
+
+var specC16 = &lifeSpec{
+	Prop: "C16", Test: "TestC16",
+	Oracles: func() []Oracle { return []Oracle{NewC16()} },
+	Tune: func(cfg *LifeCfg, s *Sim) {
+		s.TraceSteps = true
+		cfg.MaxData = 2
+		cfg.TimeoutHi = 15
+	},
+	Nontrivial: func(s *Sim, os []Oracle) bool {
+		o := os[0].(*C16Oracle)
+		return (o.Contended > 0 || o.StaleTried > 0) && o.Completed > 0
+	},
+	Weights:  map[string]int{"complete": 6, "advance": 3, "storeNew": 2, "storeUpdate": 3, "storeStale": 5, "permission": 1, "cancel": 2, "terminate": 1, "renew": 1, "migrate": 0, "claim": 0},
+	MaxSteps: 40,
+}
+
+func init() { specC16.register() }
+
+func TestC16(t *testing.T) { runRapid(t, "TestC16", specC16.property()) }
